@@ -223,7 +223,7 @@ def isolation(tier, seed, info):
         out['evaluations'] += base['n_ops']; out['distinct_nontrivial'] += base['n_ops']
         if base['static_before'] != base['static_after']:
             out['failures'].append(Failure({'probe': 'multi', 'seed': s, 'n': n, 'mode': 'isolated'}, 'static-modified', 'shared static tables / class attributes changed during the run'))
-        variants = [('interleaved', '0'), ('reversed', '0'), ('warm', '0'), ('debuglog', '0')] + [('isolated', h) for h in seeds_hash[1:]] + [('interleaved', seeds_hash[-1])]
+        variants = [('interleaved', '0'), ('reversed', '0'), ('warm', '0'), ('debuglog', '0')] + ([('crowded', '0')] if rd == 0 else []) + [('isolated', h) for h in seeds_hash[1:]] + [('interleaved', seeds_hash[-1])]
         for mode, hs in variants:
             r = _run('multi_probe.py', [s, n, mode], env={'PYTHONHASHSEED': hs})
             out['summary']['runs'] += 1
@@ -235,6 +235,7 @@ def isolation(tier, seed, info):
             diff = [i for i, (a, b) in enumerate(zip(base['transcripts'], r['transcripts'])) if a != b]
             if diff:
                 what = {'interleaved': 'interleaving with other instances', 'reversed': 'instances used earlier', 'warm': 'instances used earlier',
+                        'crowded': '4000 other live connections with filled tables in the process',
                         'debuglog': 'the logging level', 'isolated': 'hash randomisation (PYTHONHASHSEED=%s)' % hs}[mode]
                 out['failures'].append(Failure({'probe': 'multi', 'seed': s, 'n': n, 'mode': mode, 'hashseed': hs}, 'not-isolated' if mode != 'isolated' else 'hash-dependent',
                                                'outputs of instance pair(s) %s differ from the isolated run under %s' % (diff[:4], what)))
@@ -328,20 +329,21 @@ def _merge(a, b):
 def longrun(prop, tier, seed, info):
     """counters that only grow over a connection's life pushed past 2^31 / 2^32 / 2^16 (longrun_probe.py)"""
     out = {'failures': [], 'known_hits': [], 'evaluations': 0, 'distinct_nontrivial': 0, 'summary': {}}
-    r = _run('longrun_probe.py', [])
+    which = ['encoder'] if prop in ('C19', 'C10') else []
+    r = _run('longrun_probe.py', which)
     if 'error' in r:
-        out['failures'].append(Failure({'probe': 'longrun'}, 'probe-crash', 'long-run probe crashed: ' + r['error']))
+        out['failures'].append(Failure({'probe': 'longrun', 'which': which}, 'probe-crash', 'long-run probe crashed: ' + r['error']))
         return out
     out['evaluations'] = out['distinct_nontrivial'] = r['evaluations']
     out['summary'] = {'longrun_evaluations': r['evaluations']}
     for f in r['failures'][:1]:
-        out['failures'].append(Failure({'probe': 'longrun'}, f['sig'], f['text']))
+        out['failures'].append(Failure({'probe': 'longrun', 'which': which}, f['sig'], f['text']))
     return out
 
 
 def run(prop, tier, seed, info):
     base = _run_one(prop, tier, seed, info)
-    if prop in ('C06', 'C14') and not base['failures']:
+    if prop in ('C06', 'C14', 'C19', 'C10') and not base['failures']:
         base = _merge(base, longrun(prop, tier, seed, info))
     if prop in THREAD_KINDS and not base['failures']:
         base = _merge(base, threads(prop, tier, seed, info))
@@ -364,7 +366,7 @@ def replay(prop, p):
     if isinstance(p, dict) and p.get('probe') == 'threads':
         return threads_replay(p)
     if isinstance(p, dict) and p.get('probe') == 'longrun':
-        r = _run('longrun_probe.py', [])
+        r = _run('longrun_probe.py', p.get('which') or [])
         return ('probe crashed: ' + r['error']) if 'error' in r else (r['failures'][0]['text'] if r['failures'] else None)
     if prop == 'C07':
         return memory_replay(p)
